@@ -3,16 +3,17 @@
 From Coq Require Import Ascii String.
 From SV Require Import Obs.MetricSpec.
 
-(** Every row outside the two recorded defect classes is right: the unit in its
-    name is the unit of its value, and a help text promising a truth value goes
-    with the true-as-1 encoding. *)
-Theorem table_ok_except_known : forall m,
-  In m metric_table -> row_kf m = 0 -> row_ok m = true.
+(** EVERY row is right (no exemption): the unit in its name is the unit of its
+    value, and a help text promising a truth value goes with the true-as-1
+    encoding of format_bool!. *)
+Theorem table_ok : forall m, In m metric_table -> row_ok m = true.
 Proof.
-  assert (H : forallb (fun m => if row_kf m =? 0 then row_ok m else true) metric_table = true)
-    by (vm_compute; reflexivity).
-  intros m Hin Hk. rewrite forallb_forall in H. specialize (H m Hin). rewrite Hk in H. exact H.
+  assert (H : forallb row_ok metric_table = true) by (vm_compute; reflexivity).
+  intros m Hin. rewrite forallb_forall in H. exact (H m Hin).
 Qed.
+
+Theorem format_bool_ok : bool_enc_true = 1 /\ bool_enc_false = 0.
+Proof. split; reflexivity. Qed.
 
 (** Every source expression of the table is classified (no silent gaps). *)
 Theorem table_sources_classified : forall m src,
